@@ -668,7 +668,13 @@ def doctor_imports_and_inherited_prefixes(ctx):
     inline1 = ('<xsd:schema xmlns:xsd="%s" xmlns:o="urn:own" targetNamespace="urn:t" elementFormDefault="qualified">%%s'
                '<xsd:element name="f"><xsd:complexType><xsd:sequence><xsd:element ref="o:o"/></xsd:sequence></xsd:complexType>'
                '</xsd:element></xsd:schema>' % XS)
+    filtered = suds.xsd.doctor.Import("urn:own", "http://docs.invalid/elsewhere/own-by-doctor.xsd")
+    filtered.filter.add("urn:own")
+    filtered.filter.add("urn:t")
     for label, decl, imp, want_urls in (
+            # (a filter that lists the imported namespace itself: a schema never gets an import of its own namespace)
+            ("doctor-filter-names-own-namespace", '<xsd:import namespace="urn:own" schemaLocation="http://docs.invalid/d/own.xsd"/>',
+             filtered, ["http://docs.invalid/d/own.xsd", "http://docs.invalid/d/root.wsdl"]),
             ("doctor-next-to-own-import", '<xsd:import namespace="urn:own" schemaLocation="http://docs.invalid/d/own.xsd"/>',
              suds.xsd.doctor.Import("urn:own", "http://docs.invalid/elsewhere/own-by-doctor.xsd"),
              ["http://docs.invalid/d/own.xsd", "http://docs.invalid/d/root.wsdl"]),
